@@ -108,7 +108,8 @@ func c02Searches(p *run.Part, tier string) []*seqx.Search {
 	return []*seqx.Search{
 		mk(CfgDef3, "", depth), mk(CfgShared3, "", depth-1), mk(CfgHash3, "", depth-1),
 		mk(CfgDef3, "+chain20", pdepth), mk(CfgDef3, "+fork12", pdepth), mk(CfgDef3, "+tri4", pdepth), mk(CfgClk3, "", depth-1),
-		mkPolicy(mk, "denyB/default", depth), mkPolicy(mk, "denyP3/default", depth),
+		mkPolicy(mk, "denyB/default", depth), mkPolicy(mk, "denyP3/default", depth), mk(CfgFww3, "", depth-1),
+		mk2(mk, depth+2), mk(CfgDef3, "+ab-merged", depth-1), mk(CfgDef3, "+abc", depth-1), mk(CfgDef3, "+a-spread", depth-1),
 	}
 }
 
@@ -155,4 +156,11 @@ func runSearches(p *run.Part, ss []*seqx.Search) {
 		}
 	}
 	p.SetExtra("searches", rows)
+}
+
+// mk2 is the deep two-replica search (alphabet of 4 operations).
+func mk2(mk func(cfg *seqx.Config, prefix string, d int) *seqx.Search, depth int) *seqx.Search {
+	s := mk(CfgDef2, "", depth)
+	s.Alphabet = Alphabet2()
+	return s
 }
